@@ -17,6 +17,9 @@ from .report import EVIDENCE_DIR, Report, load_known_findings
 PROPERTIES = [f"C{n:02d}" for n in range(1, 21)]
 
 
+LIST_ALL = False
+
+
 def run_property(pid: str, tier: str, repo: str | None, only_rule: str | None = None) -> int:
     t0 = time.time()
     try:
@@ -33,6 +36,9 @@ def run_property(pid: str, tier: str, repo: str | None, only_rule: str | None = 
             rep.obligations = [o for o in rep.obligations if o.rule == only_rule]
             rep.rule_floor = {k: v for k, v in rep.rule_floor.items() if k == only_rule}
             rep.rule_text = {k: v for k, v in rep.rule_text.items() if k == only_rule}
+        if LIST_ALL:
+            for o in rep.obligations:
+                print(f"    {o.verdict:9s} {o.rule} {o.func} `{o.construct}` - {o.what}")
         code = rep.finish(prog)
         if code == 0 and tier == "thorough" and (hasattr(mod, "AUDIT") or hasattr(mod, "audit")) and not only_rule:
             from . import selftest
@@ -134,7 +140,10 @@ def main(argv=None) -> int:
     ap.add_argument("--repo")
     ap.add_argument("--selfcheck", action="store_true")
     ap.add_argument("--all", action="store_true")
+    ap.add_argument("--list", action="store_true", help="print every obligation")
     a = ap.parse_args(argv)
+    global LIST_ALL
+    LIST_ALL = a.list
     if a.selfcheck:
         return selfcheck()
     tier = "thorough" if a.thorough else "quick"
